@@ -622,7 +622,11 @@ func (s *storeSim) opSweep() {
 			delete(s.model, tag)
 			s.res.Probe("expired_by_sweep")
 		} else if d > -time.Millisecond {
-			rec.maybeGone = true // within a millisecond of the boundary: not judged
+			// within a millisecond of the boundary either outcome is right: follow the store, so that the
+			// model does not carry the ambiguity into later operations (a re-push of the same bundle)
+			if !s.st.KnowsBundle(rec.id) {
+				delete(s.model, tag)
+			}
 		}
 	}
 }
